@@ -113,8 +113,14 @@ def make_filter(names, style="callable"):
         mx = max(o.duration for o in operations)
         return [o for o in operations if o.duration == mx]
 
+    def user_none_if_single(dispatcher, operations):
+        # "no decision to take": a filter that returns nothing when only one candidate is left (a filter may do that;
+        # the dispatcher then simply reports no available operation in that state)
+        return [] if len(operations) == 1 else operations
+
     funcs["user_keep_last"] = user_keep_last
     funcs["user_longest_only"] = user_longest_only
+    funcs["user_none_if_single"] = user_none_if_single
     kinds = ["name", "enum", "callable"]
 
     def one(name, i):
@@ -137,7 +143,7 @@ def make_filter(names, style="callable"):
     return create_composite_operation_filter(parts)
 
 
-def gen_filter(rng, positive, p_none=0.35, user=0.0):
+def gen_filter(rng, positive, p_none=0.35, user=0.0, emptying=False):
     """Filter configuration (names, style).  With zero durations the dominated
     filter is still allowed (its result is then only checked structurally).
     `user`: probability that a user-defined filter (which may hide the
@@ -149,7 +155,7 @@ def gen_filter(rng, positive, p_none=0.35, user=0.0):
         return [], "callable"
     pool = list(FILTERS)
     if user and rng.random() < user:
-        pool = list(USER_FILTERS) + [rng.choice(FILTERS)]
+        pool = list(USER_FILTERS) + [rng.choice(FILTERS)] + (["user_none_if_single"] if emptying else [])
     if r < p_none + 0.35:
         names = [rng.choice(pool)]
     else:
@@ -467,14 +473,15 @@ class DWorld:
             raise Foreign(own, f"solver.solve(instance, dispatcher) raised {short_exc(e)}")
         finally:
             self.disp.unsubscribe(rec)
-        for (_, _, op_id, mm, start, _) in sink:
+        updates = [e for e in sink if e[0] == "update"]  # (anything else the recorder was told is C10's business)
+        for (_, _, op_id, mm, start, _) in updates:
             j, p = self.model.ops[op_id]
             if self.model.nxt[j] != p or mm not in self.model.machines(j, p):
                 raise Foreign("C04", "the rule solver dispatched an operation that is not ready")
             self.model.dispatch(j, p, mm)
             self.accepted.append((op_id, mm))
         self.ctx.sim_time = max(self.ctx.sim_time, self.model.makespan())
-        return len(sink)
+        return len(updates)
 
     def fork(self):
         """The user deep-copies the dispatcher (with everything subscribed to it) mid-history - a rollout /
@@ -535,8 +542,10 @@ class DWorld:
         if src == 1:
             cands = list(self.call_query("available_operations"))
             if not cands:
-                # a filter returned nothing although work is left: C07's business
-                self.lib_error("C07", "filter_empty", "available_operations() is empty although operations are ready")
+                if self.model.available() != []:
+                    # a filter returned nothing although work is left: C07's business
+                    self.lib_error("C07", "filter_empty", "available_operations() is empty although operations are ready")
+                # (an emptying user filter: the user falls back to the ready operations)
                 cands = list(self.call_query("raw_ready_operations"))
         else:
             cands = [self.op_of(j, p) for j, p in self.model.ready()]
